@@ -2968,6 +2968,7 @@ func (p *Posix) PutObject(ctx context.Context, po s3response.PutObjectInput) (s3
 			if err != nil && !errors.Is(err, meta.ErrNoSuchKey) {
 				return s3response.PutObjectOutput{}, fmt.Errorf("remove user attr %q: %w", attr, err)
 			}
+			verifhook.At("posix.putobject.dirattr")
 		}
 
 		for k, v := range po.Metadata {
@@ -2976,6 +2977,7 @@ func (p *Posix) PutObject(ctx context.Context, po s3response.PutObjectInput) (s3
 			if err != nil {
 				return s3response.PutObjectOutput{}, fmt.Errorf("set user attr %q: %w", k, err)
 			}
+			verifhook.At("posix.putobject.dirattr")
 		}
 
 		// set etag attribute to signify this dir was specifically put
@@ -2984,6 +2986,7 @@ func (p *Posix) PutObject(ctx context.Context, po s3response.PutObjectInput) (s3
 		if err != nil {
 			return s3response.PutObjectOutput{}, fmt.Errorf("set etag attr: %w", err)
 		}
+		verifhook.At("posix.putobject.dirattr")
 
 		// set "application/x-directory" content-type
 		err = p.meta.StoreAttribute(nil, *po.Bucket, *po.Key, contentTypeHdr,
